@@ -252,8 +252,8 @@ type pool struct {
 
 type spaceStat struct {
 	Size, Cases, Evals, Skipped, Values, Nontriv, Deaths int64
-	WallS                                                  float64
-	Capped                                                 bool
+	WallS                                                float64
+	Capped                                               bool
 }
 
 func newPool(r *core.Run) *pool {
